@@ -144,6 +144,19 @@ CHECKS["C13"] = dict(
     design_ref="DESIGN.md §5 C13",
     note="Trusted: Coq kernel + Reals axioms; femmcli Lua route; tolerances 1e-9 (additivity, geometry), 2e-5 (energy vs terminals).",
     technique="Coq proof (toggle parity, sum additivity, discrete Green, energy identity) + integral run relations")
+CHECKS["C06"] = dict(
+    category="proof",
+    text=("Coq theorems: the element row of the electrostatics model applied to an affine potential has a closed form "
+          "(planar and axisymmetric), and the sum of these contributions over ANY closed fan of elements vanishes (any valence, "
+          "any coordinates), also across a straight material interface with continuous normal flux; element energy of an affine "
+          "field = 1/2 eps E^2 x volume. So affine fields satisfy every assembled interior equation on every mesh. Real runs "
+          "through femmcli: plates, two materials in series, slab with convection, uniform flux density, axial axisymmetric "
+          "field (random dimensions, constants, units, mesh sizes): every node equals the exact linear function to solver "
+          "precision, energy equals its closed form; coaxial and spherical capacitor, heated cylinder, skin-effect slab converge "
+          "to their closed forms under refinement. Partial: uniqueness not proved; convergence part is numerical evidence."),
+    design_ref="DESIGN.md §5 C06",
+    note="Trusted: Coq kernel + Reals axioms; closed-form references coded in tools/props/c06.py; femmcli Lua route; tolerance 2e-6 of the field span + 5e-8 of its magnitude.",
+    technique="Coq proof (affine exactness by telescoping over closed fans) + closed-form run comparison")
 PENDING = {}
 def main():
     props = [json.loads(l) for l in open(os.path.join(V, "properties.jsonl"))]
